@@ -46,6 +46,7 @@ func init() {
 			"Added families judged by the same rules (audit.go): reused-request histories (one endorse.Context value for every run of a history, changed or refilled in place, same candidate under overwrite, failed run repaired in place, two version-control back ends, snapshot + SVSM image, long-lived localkm / gcsca values, rotation time flags backwards / same instant / sub-second / zoned / so late that the leaf outlives the root); " +
 			"parallel batches (6 workers x endorse runs at the same time on one authority, then concurrent verification on one pool); faulted endorse runs (an error at every call position x plain / keep-going / retriable back end / keep-going+overwrite, then the same request again with overwrite: whatever is committed must verify); " +
 			"environment histories through the shipped command line (missing parent directories, symlinked directory and file, longer left-overs at the written paths and at the next certificate's object name, zoned timestamps); the wall-clock history uses its long-lived validators and Options value before AND after the rotation. " +
+			"Serial-flag histories (round5.go): root key, first signing key and rotation overrides with serial numbers on the arithmetic / encoding boundaries of the flags (0 taken literally by bootstrap, 0x7f/0x80, 2^63, 2^64, 2^159, 2^160-1, 2^160 and beyond, 16 / 21 random octets), default rotations (predecessor + 1) across those boundaries, library path, long-lived authority value and command line; refused bootstraps / rotations are counted, never judged. " +
 			"non-trivial = distinct (assembly, request shape, check kind, position in history) cells",
 		Assumptions: []string{"requests always carry provenance (the verifier demands it after 2024-08-02)", "histories contain no re-bootstrap (C03 speaks about one authority's root)", "rotation time flags stay inside the root certificate's life (outside it no instant is inside the validity of both certificates)",
 			"runs at the same time use one command context each (own authority value / key manager view), the way separate request handlers would; calls expected to be rejected are never judged",
@@ -531,6 +532,8 @@ func run(c *core.Ctx) {
 	na, next := runAudit(c, nh+1)
 	issuedTotal += na
 	issuedTotal += runRound4(c, next) // round4.go: provenance grid, one-process histories with failed and retried rotations
+	// round5.go: serial-flag histories, on the case numbers after the ones of runRound4 (its two loop counts)
+	issuedTotal += runRound5(c, next+c.N(6, 18)+c.N(12, 36))
 	c.Count("endorsements-issued-and-checked", issuedTotal)
 	c.Floor("issued-some-endorsements", issuedTotal > 0)
 }
